@@ -7,6 +7,7 @@ use blots_core::environment::Environment;
 use blots_core::expressions::{
     evaluate_pairs, pairs_to_expr_with_comments, validate_portable_value,
 };
+use blots_core::ast_to_source::do_statement_line;
 use blots_core::formatter::format_expr;
 use blots_core::functions::{clear_function_call_stats, get_function_call_stats};
 use blots_core::heap::Heap;
@@ -277,7 +278,11 @@ fn run() -> ! {
                             Rule::expression => {
                                 match pairs_to_expr_with_comments(inner_pair.into_inner()) {
                                     Ok(expr) => {
-                                        let formatted = format_expr(&expr, None);
+                                        // A line that begins with `-` would continue the line above it
+                                        let formatted = do_statement_line(
+                                            formatted_output.len(),
+                                            format_expr(&expr, None),
+                                        );
                                         formatted_output.push_str(&formatted);
                                         formatted_output.push_str(&eol_comment);
                                         formatted_output.push('\n');
